@@ -33,8 +33,8 @@ import Dhcp.Client.LTS
   `rel`) also commute with the group's pending external events and are taken
   alone even before those are exhausted.
 -/
-namespace Dhcp.Driver
-open Dhcp.Client.LTS
+namespace Dhcp.Driver.Cli
+open Dhcp.Client.LTS Dhcp.Driver
 
 inductive MEv where
   | call (i : Nat) | arr (ok : Bool) (xid tag : Nat) | can (i : Nat) | clo
@@ -305,4 +305,4 @@ def stepClientLTS (op : String) (args : List String) : Option String :=
       pure ("ok " ++ " | ".intercalate vecs)
   | _ => none
 
-end Dhcp.Driver
+end Dhcp.Driver.Cli
